@@ -109,11 +109,18 @@ def main(argv):
         rc = 1
     elif obligations_broken:
         found = []
-        if hasattr(mod, "search"):
-            try:
+        try:
+            if hasattr(mod, "search"):
                 found = [pf for pf in mod.search(ctx, res) if not _match_finding(prop, pf["key"], findings)]
-            except Exception:
-                found = []
+            else:
+                # default extended search: the same generators and probes under two further seeds
+                for k_ in (1, 2):
+                    r_ = mod.run(dict(ctx, seed=ctx["seed"] * 10 + k_, in_search=True))
+                    found += [pf for pf in r_.get("probe_failures", []) if not _match_finding(prop, pf["key"], findings)]
+                    if found:
+                        break
+        except Exception:
+            found = []
         if found:
             pf = found[0]
             payload = {"property": prop, "layer": "extended-search", "key": pf["key"], "what": pf["what"],
